@@ -5,6 +5,7 @@
 package main
 
 import (
+	"unsafe"
 	"verifharness/core"
 
 	"crypto/sha256"
@@ -114,8 +115,22 @@ func emit(args []string) {
 // dieBySignal replaces this process by a shell that kills itself: the Go
 // runtime would answer several signals with a traceback on stderr or ignore
 // them, which would spoil the planned output.
+// sigactionT is the kernel's struct sigaction (linux/amd64).
+type sigactionT struct {
+	handler  uintptr
+	flags    uint64
+	restorer uintptr
+	mask     uint64
+}
+
+// dieBySignal: the process image is replaced by a shell that kills itself. A disposition
+// "ignored" survives exec, and a check started as a background job of a non-interactive shell
+// (or under nohup) inherits SIGINT/SIGQUIT (SIGHUP) ignored - neither the Go runtime nor the shell
+// would undo that, so the default disposition is restored first, through the system call itself.
 func dieBySignal(sig int) {
 	os.Stdout.Sync()
+	var dfl sigactionT
+	syscall.RawSyscall6(syscall.SYS_RT_SIGACTION, uintptr(sig), uintptr(unsafe.Pointer(&dfl)), 0, 8, 0, 0)
 	syscall.Exec("/bin/sh", []string{"sh", "-c", fmt.Sprintf("kill -%d $$; sleep 5", sig)}, os.Environ())
 	syscall.Kill(os.Getpid(), syscall.SIGKILL)
 }
